@@ -147,7 +147,7 @@ def offsurface(rf):
 
 
 # ------------------------------------------------------------------ comparison
-def compare(deck, path, pre, prop, flags=None, what=('regions', 'compo', 'valid'), timeout_ms=20000):
+def compare(deck, path, pre, prop, flags=None, what=('regions', 'compo', 'valid'), timeout_ms=20000, vacuity=False):
     """Obligations for one explored path.  Returns dict(obligations, discharged, violations, inconclusive, sample)."""
     res = {'obligations': 0, 'discharged': 0, 'violations': [], 'inconclusive': [], 'harness_errors': [], 'sample': None}
     base = list(pre) + path.constraints()
@@ -208,6 +208,14 @@ def compare(deck, path, pre, prop, flags=None, what=('regions', 'compo', 'valid'
             if res['sample'] is None:
                 res['sample'] = {'label': list(lab), 'volumes': vols, 'verdict': 'unsat',
                                  'path_condition': [str(c)[:80] for c in path.pc][:4]}
+            if vacuity and lab in exp:
+                # is the region that was just proven equal non-empty at all?  (an empty reference region makes the
+                # equality cheap: e.g. a filler that its container clips away completely)
+                rv, _ = check_sat(base + ctx.side + off + [n.zbool(reg_ref)], min(timeout_ms, 5000))
+                res['vacuity'] = res.get('vacuity', {'labels_checked': 0, 'reference_region_empty': 0})
+                res['vacuity']['labels_checked'] += 1
+                if rv == 'unsat':
+                    res['vacuity']['reference_region_empty'] += 1
         elif r == 'sat':
             m2 = robust(cons + path.band_constraints(), ev, timeout_ms) or m
             v = make_violation(deck, prop, base, path, m2, 'deck',
